@@ -682,6 +682,7 @@ def _split_targs(s):
 META_EXTRA = "NEG (no negation of a possibly-minimum signed value); SIGN ('-' on every path that may format a negative value); CASTSIGN (no cast of the caller's value to a fixed signed type); OVFCHK (accumulation only after an unconditional overflow test); OVFCONST (exact thresholds limit / base, |limit % base|); OVFPRED (the overflow predicate evaluated over the six orderings of (value, digit) against the two thresholds); BUFLEN (a local array is handed to the kernel with its own extent as length); PARSE (front ends parse in the type they deliver, with the standard's white-space option); PARAM."
 META = (META[0] + " " + META_EXTRA, META[1])
 META = (META[0] + ' RETARG; SIBNAME (width siblings have one body).', META[1])
+META = (META[0] + ' NEGMIN (the parsed magnitude is negated only on paths that exclude numeric_limits::min()); SHRNEG (digit quotient / remainder helpers do not replace a truncating division of a possibly negative value by an arithmetic shift); controls in fixtures/arith_pos.hpp.', META[1])
 
 
 def run(chk, tier):
@@ -704,6 +705,12 @@ def run(chk, tier):
     from ..rules import iters as _ITG
     _ITG.retarg_area(chk, D.load("checks"), ['_string/sto', '_cstdlib/', '_charconv/'])      # RETARG: helper<X>() with X the caller's result type
     _ITG.sibname_area(chk, D.load("checks"), ['_string/sto', '_cstdlib/'])      # SIBNAME: strtol / strtoll, atoi / atol / atoll, ... have one body
+    from ..rules import arith as _AR
+    _cdb = D.load("checks")
+    _scope = ['_strings/', '_charconv/', '_string/to_string', '_string/sto', '_cstdlib/', '_math/idiv', '_math/abs', '_math/ipow', '_math/ilog2']
+    _AR.negmin_area(chk, _cdb, _scope)      # NEGMIN: the parsed magnitude is negated only after numeric_limits::min() is excluded
+    _AR.shrneg_area(chk, _cdb, _scope)      # SHRNEG: quotient / remainder helpers do not shift possibly negative values
+    _AR.positive_controls(chk, D, ("NEGMIN", "SHRNEG"))
     chk.assumptions += [
         "digits produced, values parsed, round trips and overflow detection at the type's limits are run-time values and are "
         "not decided by these clauses",
